@@ -174,8 +174,7 @@ Section PwNorm2.
 Variable af : nat -> Rvec -> Rvec.
 Variable ad : nat -> Rvec -> Rvec -> Rvec.
 Variable adm arn : nat -> space.
-Variable rv : bool.
-Notation P := (PR af ad adm arn rv).
+Notation P := (PR af ad adm arn).
 
 Lemma pwnorm2_curve n w c x d :
   curve (length w * n) c x d ->
